@@ -5,6 +5,8 @@ import (
 	"go/constant"
 	"go/token"
 	"go/types"
+	"os"
+	"strings"
 
 	"golang.org/x/tools/go/ssa"
 
@@ -507,6 +509,164 @@ func firstStageWins(f *ssa.Function, call *ssa.Call) bool {
 	walk(nil, call.Block(), idx+1, env{})
 	return ok
 }
+
+// R12.7
+var rulePragmaValue = &core.Rule{ID: "R12.7", Min: 1,
+	Doc: "pragma value scanner (WHATWG `extracting a character encoding from a meta element`, steps 6-8): the test for an opening quote looks at the first byte of the remainder after the equals sign with the HTML whitespace skipped; a quote test made on the remainder before that skip takes a quoted label preceded by blanks for a bare one (quotes end up in the label)",
+	Run: func(c *core.Ctx, s *core.Sink) {
+		cm := getCharset(c)
+		if cm.html == nil {
+			core.Bail("no HTML sniffer registered")
+		}
+		// string scanners reachable from the HTML sniffer
+		seen := map[*ssa.Function]bool{}
+		var fns []*ssa.Function
+		var rec func(f *ssa.Function, d int)
+		rec = func(f *ssa.Function, d int) {
+			if f == nil || f.Blocks == nil || seen[f] || d > 4 || !core.InMod(f) {
+				return
+			}
+			seen[f] = true
+			fns = append(fns, f)
+			for _, ci := range core.Calls(f) {
+				rec(ci.Common().StaticCallee(), d+1)
+			}
+		}
+		rec(cm.html, 0)
+		isWSTrim := func(v ssa.Value) bool {
+			call, ok := v.(*ssa.Call)
+			if !ok {
+				return false
+			}
+			switch {
+			case core.CalleeIs(&call.Call, "strings", "TrimLeft"), core.CalleeIs(&call.Call, "strings", "Trim"):
+				k, isK := core.ConstString(call.Call.Args[1])
+				if !isK {
+					return false
+				}
+				for _, w := range " \t\n\f\r" {
+					if !strings.ContainsRune(k, w) {
+						return false
+					}
+				}
+				return true
+			case core.CalleeIs(&call.Call, "strings", "TrimSpace"):
+				return true
+			}
+			return false
+		}
+		n := 0
+		for _, f := range fns {
+			// first bytes of strings compared with both quote characters
+			type site struct {
+				str    ssa.Value
+				dq, sq bool
+				at     ssa.Instruction
+			}
+			sites := map[ssa.Value]*site{}
+			for _, b := range f.Blocks {
+				for _, in := range b.Instrs {
+					var strV, idxV ssa.Value
+					var lk ssa.Instruction
+					switch x := in.(type) {
+					case *ssa.Lookup:
+						strV, idxV, lk = x.X, x.Index, x
+					case *ssa.Index:
+						strV, idxV, lk = x.X, x.Index, x
+					default:
+						continue
+					}
+					if !core.IsString(strV.Type()) || !core.IsConstInt(idxV, 0) {
+						continue
+					}
+					for _, ref := range *lk.(ssa.Value).Referrers() {
+						bo, ok := ref.(*ssa.BinOp)
+						if !ok || (bo.Op != token.EQL && bo.Op != token.NEQ) {
+							continue
+						}
+						for _, o := range []ssa.Value{bo.X, bo.Y} {
+							if k, isK := core.ConstInt(o); isK {
+								st := sites[strV]
+								if st == nil {
+									st = &site{str: strV, at: lk}
+									sites[strV] = st
+								}
+								if k == '"' {
+									st.dq = true
+								}
+								if k == 0x27 {
+									st.sq = true
+								}
+							}
+						}
+					}
+				}
+			}
+			for _, st := range sites {
+				if !st.dq || !st.sq {
+					continue
+				}
+				// only the scanner that looks for an equals sign first (the XML pseudo-attribute reader has `encoding=` as one token)
+				afterEq := func(v ssa.Value) bool {
+					sl, ok := v.(*ssa.Slice)
+					if !ok || !core.IsConstInt(sl.Low, 1) || sl.High != nil {
+						return false
+					}
+					for _, ref := range *sl.X.Referrers() {
+						if call, ok := ref.(*ssa.Call); ok && core.CalleeIs(&call.Call, "strings", "HasPrefix") {
+							if k, isK := core.ConstString(call.Call.Args[1]); isK && k == "=" {
+								return true
+							}
+						}
+					}
+					return false
+				}
+				hasEq := false
+				for _, b := range f.Blocks {
+					for _, in := range b.Instrs {
+						if sl, ok := in.(*ssa.Slice); ok && afterEq(sl) {
+							hasEq = true
+						}
+					}
+				}
+				if !hasEq {
+					continue
+				}
+				n++
+				key := fmt.Sprintf("%s: opening quote test #%d", core.FName(f), n)
+				srcs := []ssa.Value{st.str}
+				if ph, ok := st.str.(*ssa.Phi); ok {
+					srcs = ph.Edges
+				}
+				okAll, bad := true, false
+				for _, v := range srcs {
+					switch {
+					case isWSTrim(v):
+					case afterEq(v):
+						bad = true
+					default:
+						okAll = false
+					}
+				}
+				switch {
+				case bad:
+					s.Bad(key, c.Pos(st.at.Pos()), "the opening quote is looked for in the remainder right after the equals sign, before the whitespace there is skipped: `charset= \"x\"` is read as a bare label and the quotes end up in the reported charset")
+				case okAll:
+					s.OK(key, c.Pos(st.at.Pos()), "first byte of the whitespace-trimmed remainder after `=`")
+				default:
+					s.Und(key, c.Pos(st.at.Pos()), "the string whose first byte is tested for a quote is not the result of a whitespace trim: the order of the steps is not decided")
+				}
+			}
+		}
+		if n == 0 {
+			if os.Getenv("MTVERIF_DEBUG") != "" {
+				for _, f := range fns {
+					fmt.Fprintln(os.Stderr, "R12.7 reach:", f.Name())
+				}
+			}
+			s.Und("pragma value scanner", c.Pos(cm.html.Pos()), "no string scanner with an equals-sign step and a quote test found below the HTML sniffer")
+		}
+	}}
 
 // R12.4 + R12.5 + R12.6
 var ruleHTMLOrder = &core.Rule{ID: "R12.4", Min: 3,
